@@ -52,6 +52,8 @@ class Front:
         self.repo, self.config = repo, config
         self.cache = {}
         self.td = tempfile.mkdtemp(prefix='c2lean')
+        import atexit, shutil
+        atexit.register(shutil.rmtree, self.td, True)
         self.tu = os.path.join(self.td, 'tu.c')
         open(self.tu, 'w').write(TU_HEAD)
         # on-disk cache of clang's output, keyed by the CONTENT of the current sources: any edit of /repo invalidates it
